@@ -1063,10 +1063,11 @@ class slice(Stream):
         self._check_end()
 
     def update(self, x, who=None, metadata=None):
-        if self.state >= self.star and (self.state - self.star) % self.step == 0:
-            self.emit(x, metadata=metadata)
+        position = self.state
         self.state += 1
         self._check_end()
+        if position >= self.star and (position - self.star) % self.step == 0:
+            return self._emit(x, metadata=metadata)
 
     def _check_end(self):
         if self.end is not None and self.state >= self.end:
